@@ -92,7 +92,7 @@ def _lit_copy():
     for n in ast.walk(kr):
         if isinstance(n, ast.If) and ast.unparse(n.test) == "aa == '{'":
             hits.append([ast.unparse(s) for s in n.body])
-    want = ["(i, d) = read_list(t, '}', i=i + 2, module=module)", "d = list_to_dict(d)", "return (i, KGCall(copy_lambda, args=d, arity=0))"]
+    want = ["i, d = read_list(t, '}', i=i + 2, module=module)", "d = list_to_dict(d)", "return (i, KGCall(copy_lambda, args=d, arity=0))"]
     return len(hits) == 1 and hits[0] == want
 
 
@@ -111,7 +111,7 @@ def _ops_shape():
     ok = ok and _branch(join, "isinstance(b, dict) and is_list(a) and (len(a) == 2)") == ["b[a[0]] = a[1]", "return b"]
     # the dictionary tests come before any list handling, in this order
     tests = [ast.unparse(n.test) for n in astlib.body_no_doc(join) if isinstance(n, ast.If)]
-    ok = ok and tests[:3] == ["isinstance(a, str) and (not isinstance(a, KGSym)) and (isinstance(b, str) and (not isinstance(b, KGSym)))",
+    ok = ok and tests[:3] == ["(isinstance(a, str) and (not isinstance(a, KGSym))) and (isinstance(b, str) and (not isinstance(b, KGSym)))",
                               "isinstance(a, dict)", "isinstance(b, dict) and is_list(a) and (len(a) == 2)"]
     find = astlib.find_func(dy, "eval_dyad_find")
     ok = ok and _branch(find, "is_dict(a)") == ["v = a.get(b)", "return KLONG_UNDEFINED if v is None else v"]
@@ -129,7 +129,7 @@ def _ops_shape():
     wr = astlib.module("klongpy/writer.py")
     wd = astlib.find_func(wr, "kg_write_dict")
     rets = [ast.unparse(n.value) for n in ast.walk(wd) if isinstance(n, ast.Return)]
-    ok = ok and rets[-1] == "''.join([':{', ' '.join([kg_write(list(e), backend, display=display) for e in d.items()]), '}'])"
+    ok = ok and len(rets) == 2 and "str(d)" in rets and "''.join([':{', ' '.join([kg_write(list(e), backend, display=display) for e in d.items()]), '}'])" in rets
     return ok
 
 
@@ -288,7 +288,8 @@ KEYS = [("i", 0), ("i", 1), ("i", 2), ("i", -3), ("i", 7), ("r", 1.0), ("r", 2.5
         ("c", "a"), ("c", "b"), ("c", "1"), ("s", "a"), ("s", "b"), ("s", "ab"), ("s", ""), ("s", "1"),
         ("y", "a"), ("y", "b"), ("y", "ab")]
 BADKEYS = [("l", [("i", 1), ("i", 2)]), ("l", []), ("l", [("s", "a")])]
-VALUES = KEYS + [("l", [("i", 1), ("i", 2)]), ("l", [("i", 1), ("r", 2.5)]), ("l", []), ("s", "hello"),
+# payload lists are chosen stable under numpy array conversion (an int/real mix inside a nested list is re-typed by kg_asarray: C01's subject)
+VALUES = KEYS + [("l", [("i", 1), ("i", 2)]), ("l", [("r", 1.5), ("r", 2.5)]), ("l", []), ("s", "hello"),
                  ("l", [("l", [("i", 1), ("i", 2)]), ("s", "x")]), ("l", [("c", "a"), ("y", "q")]), ("i", 100), ("r", 0.25)]
 
 
